@@ -317,6 +317,8 @@ pub fn record(args: &[String]) {
     }
 }
 
+const PRELUDE: &str = "include \"stdgates.inc\";\nint a; int b; int c; int d; bit[8] v; bit m; duration t = 10ns; qubit[4] q; qubit[2] r;\ndef f(int p) -> int { return p; }\ngate g a0, a1 { }\n";
+
 /// anz-symtrace <seed> <corpus.json> <n_mut> <n_rand> <out.ndjson> <summary.json> [gram-cases.ndjson]
 /// Run the REAL semantic analysis on every corpus / mutated / random text that parses without any
 /// diagnostic and record the symbol-table operations it performs (hook oq3_semantics::verif), one
@@ -332,7 +334,11 @@ pub fn record_analysis(args: &[String]) {
     if args.len() > 6 {
         for c in read_ndjson(&args[6]) {
             let toks: Vec<String> = c["toks"].as_array().unwrap().iter().map(|t| crate::lex::expand(t.as_str().unwrap())).collect();
-            inputs.push(crate::gram::render(&toks, 0));
+            let text = crate::gram::render(&toks, 0);
+            // the same program after declarations of the free names the reference grammar uses, so that the analysis goes past
+            // "undeclared" into the typed paths (operands of a declared register, calls of a declared subroutine, ...)
+            inputs.push(format!("{PRELUDE}{text}"));
+            inputs.push(text);
         }
     }
     let mut out = NdjsonOut::create(&args[4]);
@@ -351,6 +357,7 @@ pub fn record_analysis(args: &[String]) {
         if !clean { skipped_syntax += 1; continue; }
         // `include` needs the file system: texts with includes other than stdgates.inc are left to C18
         if t.contains("include") && !t.contains("stdgates.inc") { continue; }
+        note_input(t);
         oq3_semantics::verif::start_recording();
         let r = guarded(|| {
             let res = parse_source_string_with_path_search(t.as_str(), Some("main.qasm"), None::<&[std::path::PathBuf]>);
